@@ -34,7 +34,7 @@ package collector
 //@   reveal sortedBy member distinctElems
 //@   requires c != nil && c.compare != nil && ordered(c.compare) && sortedBy(c.compare, c.slice, len(c.slice))
 //@   modifies c.slice, c.slice[*]
-//@   ensures len(c.slice) == old(len(c.slice)) + 1 && sortedBy(c.compare, c.slice, len(c.slice)) && (base(c.slice) == old(base(c.slice)) || fresh(c.slice))
+//@   ensures len(c.slice) == old(len(c.slice)) + 1 && sortedBy(c.compare, c.slice, len(c.slice)) && ((old(cap(c.slice)) > 0 && base(c.slice) == old(base(c.slice))) || fresh(c.slice))
 //@   ensures exists(p, 0, len(c.slice), c.slice[p] == doc && forall(k, 0, p, c.slice[k] == old(c.slice[k])) && forall(k, p+1, len(c.slice), c.slice[k] == old(c.slice[k-1])) \
 //@             && forall(k, 0, p, c.compare(c.slice[k], doc) <= 0) && forall(k, p+1, len(c.slice), c.compare(doc, c.slice[k]) < 0), i)
 //@   ensures all(y, *search.DocumentMatch, implies(member(c.slice, len(c.slice), y), old(member(c.slice, len(c.slice), y)) || y == doc))
@@ -79,7 +79,7 @@ package collector
 //@   mode int
 //@   requires st != nil && storeOK(st) && doc != nil && !storeHas(st, doc) && size >= 0
 //@   modifies collectStoreSlice.slice, collectStoreHeap.heap, storeElems(st)[*]
-//@   ensures storeOK(st) && storeCmp(st) == old(storeCmp(st))
+//@   ensures storeOK(st) && storeCmp(st) == old(storeCmp(st)) && ((old(cap(storeElems(st))) > 0 && base(storeElems(st)) == old(base(storeElems(st)))) || fresh(storeElems(st)))
 //@   ensures implies(old(storeLen(st)) + 1 <= size, result == nil && storeLen(st) == old(storeLen(st)) + 1)
 //@   ensures implies(old(storeLen(st)) + 1 <= size, all(x, *search.DocumentMatch, implies(storeHas(st, x), old(storeHas(st, x)) || x == doc)))
 //@   ensures implies(old(storeLen(st)) + 1 <= size, storeHas(st, doc) && all(x, *search.DocumentMatch, implies(old(storeHas(st, x)), storeHas(st, x))))
@@ -165,7 +165,7 @@ package collector
 //@ assume func heap.Push(h, x)
 //@   requires typeis(h, *collectStoreHeap) && typeis(x, *search.DocumentMatch) && heapOK(hstore(h))
 //@   modifies collectStoreHeap.heap, hstore(h).heap[*]
-//@   ensures heapOK(hstore(h)) && len(hstore(h).heap) == old(len(hstore(h).heap)) + 1 && (base(hstore(h).heap) == old(base(hstore(h).heap)) || fresh(hstore(h).heap)) && hstore(h).compare == old(hstore(h).compare)
+//@   ensures heapOK(hstore(h)) && len(hstore(h).heap) == old(len(hstore(h).heap)) + 1 && ((old(cap(hstore(h).heap)) > old(len(hstore(h).heap)) && base(hstore(h).heap) == old(base(hstore(h).heap))) || fresh(hstore(h).heap)) && hstore(h).compare == old(hstore(h).compare)
 //@   ensures all(y, *search.DocumentMatch, iff(hhas(hstore(h), y), old(hhas(hstore(h), y)) || y == x.(*search.DocumentMatch)))
 //@   ensures implies(old(hdistinct(hstore(h))) && !old(hhas(hstore(h), x.(*search.DocumentMatch))), hdistinct(hstore(h)))
 
@@ -184,7 +184,7 @@ package collector
 //@   mode int
 //@   requires c != nil && heapOK(c) && doc != nil
 //@   modifies collectStoreHeap.heap, c.heap[*]
-//@   ensures heapOK(c) && len(c.heap) == old(len(c.heap)) + 1 && (base(c.heap) == old(base(c.heap)) || fresh(c.heap)) && c.compare == old(c.compare)
+//@   ensures heapOK(c) && len(c.heap) == old(len(c.heap)) + 1 && ((old(cap(c.heap)) > 0 && base(c.heap) == old(base(c.heap))) || fresh(c.heap)) && c.compare == old(c.compare)
 //@   ensures all(y, *search.DocumentMatch, iff(hhas(c, y), old(hhas(c, y)) || y == doc))
 //@   ensures implies(old(hdistinct(c)) && !old(hhas(c, doc)), hdistinct(c))
 
